@@ -20,6 +20,7 @@ PortVals == {<<52, 52, 51>>, <<56, 52, 52, 51>>}       \* 443, 8443
 ForVals  == {<<49, 46, 49>>, <<50, 46, 50>>}           \* 1.1, 2.2
 ProtoVals == {<<104, 116, 116, 112, 115>>, <<104, 116, 116, 112>>}   \* https, http
 PrefVals == {<<47, 97>>, <<47, 98>>}                   \* /a, /b
+quoted == <<101, 118, 34, 105, 108>>                     \* ev"il : what a client may send in front
 Trusted == <<acom, lit>>
 
 RECURSIVE JoinComma(_)
@@ -54,6 +55,8 @@ Next == \/ /\ focus = "hostport" /\ focus' = "hostport2"
            /\ \E h \in Hdrs(ProtoVals, MaxOtherLen), g \in Hdrs(PrefVals, IF MaxOtherLen < 2 THEN MaxOtherLen ELSE 2) : hd' = [hd EXCEPT !.proto = h, !.prefix = g]
            /\ UNCHANGED <<cfg, env>>
 
+\* the values of a header as the table reads them (no header / empty header: none)
+HVals(h) == IF ~h.p \/ h.text = <<>> THEN <<>> ELSE Pieces(h.text)
 Final == focus \in {"hostport2", "others2"}
 O == Out(Variant, cfg, env, hd)
 
@@ -65,24 +68,29 @@ CountOfHdr(n) == CASE n = "for" -> cfg.x_for [] n = "proto" -> cfg.x_proto [] n 
 \* what the client put in front of the values the proxies wrote never matters
 ExtraLeftIrrelevant ==
   Final => \A n \in Names :
-     (Len(ListValues(hd[n].text)) >= CountOfHdr(n) /\ hd[n].p /\ hd[n].text # <<>>) =>
-        Out(Variant, cfg, env, [hd EXCEPT ![n] = Prepend(hd[n], evil)]) = O
+     (Len(HVals(hd[n])) >= CountOfHdr(n) /\ hd[n].p /\ hd[n].text # <<>>) =>
+        /\ Out(Variant, cfg, env, [hd EXCEPT ![n] = Prepend(hd[n], evil)]) = O
+        /\ Out(Variant, cfg, env, [hd EXCEPT ![n] = Prepend(hd[n], quoted)]) = O     \* a quote merges nothing
 \* ... and so it cannot change what the trusted-host check says
 ExtraLeftSameVerdict ==
-  (Final /\ Len(ListValues(hd.host.text)) >= cfg.x_host /\ hd.host.p /\ hd.host.text # <<>>) =>
-     EnvVerdicts(<<>>, Out(Variant, cfg, env, [hd EXCEPT !.host = Prepend(hd.host, acom)]), Trusted) = EnvVerdicts(<<>>, O, Trusted)
+  (Final /\ Len(HVals(hd.host)) >= cfg.x_host /\ hd.host.p /\ hd.host.text # <<>>) =>
+     /\ EnvVerdicts(<<>>, Out(Variant, cfg, env, [hd EXCEPT !.host = Prepend(hd.host, acom)]), Trusted) = EnvVerdicts(<<>>, O, Trusted)
+     /\ EnvVerdicts(<<>>, Out(Variant, cfg, env, [hd EXCEPT !.host = Prepend(hd.host, quoted)]), Trusted) = EnvVerdicts(<<>>, O, Trusted)
+\* the case the repo fix 2d7315b is about, spelled out: client `ev"il`, one proxy appends `, 1.1`, x_for = 1
+QuoteExample == LET h == [NoHd EXCEPT !.for = [p |-> TRUE, text |-> quoted \o <<COMMA, 32>> \o <<49, 46, 49>>]]
+                IN Out(Variant, [NoCfg EXCEPT !.x_for = 1], Env0, h).remote = <<49, 46, 49>>
 \* count 0 / absent header / fewer values than trusted proxies: untouched
 UntouchedWhenUnconfigured ==
-  Final => /\ ((cfg.x_host = 0 \/ Len(ListValues(hd.host.text)) < cfg.x_host) /\ (cfg.x_port = 0 \/ Len(ListValues(hd.port.text)) < cfg.x_port))
+  Final => /\ ((cfg.x_host = 0 \/ Len(HVals(hd.host)) < cfg.x_host) /\ (cfg.x_port = 0 \/ Len(HVals(hd.port)) < cfg.x_port))
               => (O.host = env.host /\ O.hostp = env.hostp /\ O.sname = env.sname /\ O.sport = env.sport)
-           /\ (cfg.x_for = 0 \/ Len(ListValues(hd.for.text)) < cfg.x_for) => O.remote = env.remote
-           /\ (cfg.x_proto = 0 \/ Len(ListValues(hd.proto.text)) < cfg.x_proto) => O.scheme = env.scheme
-           /\ (cfg.x_prefix = 0 \/ Len(ListValues(hd.prefix.text)) < cfg.x_prefix) => O.script = env.script
+           /\ (cfg.x_for = 0 \/ Len(HVals(hd.for)) < cfg.x_for) => O.remote = env.remote
+           /\ (cfg.x_proto = 0 \/ Len(HVals(hd.proto)) < cfg.x_proto) => O.scheme = env.scheme
+           /\ (cfg.x_prefix = 0 \/ Len(HVals(hd.prefix)) < cfg.x_prefix) => O.script = env.script
 \* the selected host decides: HTTP_HOST names the selected value's host, and the port pieces agree
 SelectedHostDecides ==
-  Final => LET vs == ListValues(hd.host.text) n == cfg.x_host IN
+  Final => LET vs == HVals(hd.host) n == cfg.x_host IN
            (n > 0 /\ Len(vs) >= n) =>
-              LET sel == vs[Len(vs) - n + 1] IN
+              LET sel == vs[Len(vs) - n + 1] IN sel # <<>> =>
               /\ O.hostp /\ NameOfHP(O.host) = NameOfHP(sel) /\ O.sname = NameOfHP(sel)
               /\ (HasPort(O.host) => PortOfHP(O.host) = O.sport)
 \* a bracketed literal never loses its brackets nor gets cut inside them
